@@ -46,7 +46,7 @@ MUTANTS = [
  ("c15-listing-saturated-also-live", M, "    if (!saturated_match)\n    {\n      for (auto& m : matcher_list)", "    {\n      for (auto& m : matcher_list)", ["C15"]),
  ("c16-ok-twice", M, "      send_ok_report<specialized>(name);\n      for (auto& a", "      send_ok_report<specialized>(name);\n      send_ok_report<specialized>(name);\n      for (auto& a", ["C16"]),
  ("c16-set-reporter-returns-new", M, "    return detail::exchange(reporter_obj(), std::move(f));", "    reporter_obj() = f;\n    return f;", ["C16"]),
- ("c17-tracer-restores-null", M, "      set_tracer(previous);", "      set_tracer(nullptr);", ["C17"]),
+ ("c17-tracer-restores-null", M, "      if (*p) *p = previous;", "      if (*p) *p = nullptr;", ["C17"]),
  ("c17-exception-silent", M, "          os << \"threw exception: what() = \" << e.what() << '\\n';", "          (void)e;", ["C17"]),
  ("c17-trace-in-ctor", M, "        os << name_ << \" with.\\n\";\n      }", "        os << name_ << \" with.\\n\";\n        t->trace(loc.file, loc.line, os.str());\n      }", ["C17"]),
  ("c14-seq-outlived-raw-pointer", S, "    std::shared_ptr<sequence_type> seq;", "    sequence_type* seq;", ["C14"]),  # = revert of 990e553 (needs the second edit below)
